@@ -32,6 +32,8 @@ def script(rng, tier):
             body.append("R%d" % i)
         elif r < 0.48:
             body.append("d%d" % i)
+        elif r < 0.51:
+            body.append("B%d" % i)
         elif r < 0.56 and bound.get(i) == "t":
             body.append("h%d" % i)
         elif r < 0.62:
@@ -57,13 +59,36 @@ def script(rng, tier):
     return ["lifecycle rt=%s %s %s" % (rng.choice(["mt", "mt", "ct"]), ",".join(types), ";".join(ops))]
 
 
+def crowd(rng):
+    """several tasks parked in the same call on one socket (senders without a peer or at the HWM, receivers without traffic),
+    then close()/term() from wherever: every one of them has to come back"""
+    types = list(rng.choice(GROUPS[:5]))
+    ops = []
+    peer = rng.random() < 0.4
+    if peer:
+        tr = rng.choice("tpn")
+        ops += ["b1%s" % tr, "c0-1"]
+    k = rng.randrange(3, 7)
+    who = rng.choice(["S0", "S0", "R0", "R1", "S1"])
+    if who[0] == "S" and rng.random() < 0.75:
+        ops.append("B" + who[1])          # senders that wait without limit (the default SNDTIMEO)
+    ops += [who] * k
+    if rng.random() < 0.3:
+        ops += [rng.choice(["R0", "S1", "R1"])] * rng.randrange(1, 4)
+    ops.append("w%d" % rng.choice([5, 30, 120]))
+    ops.append(rng.choice(["x%s" % who[1], "X%s" % who[1], "T", "t", "D%s" % who[1]]))
+    return ["lifecycle rt=%s %s %s" % (rng.choice(["mt", "ct"]), ",".join(types), ";".join(ops))]
+
+
 def gen(rng, tier):
-    return [script(rng, tier) for _ in range(48 if tier == "quick" else 800)]
+    n = 48 if tier == "quick" else 800
+    return [script(rng, tier) for _ in range(n)] + [crowd(rng) for _ in range(n // 3)]
 
 
 def dist(cases):
     d = {"cases": len(cases), "ops": 0, "with_bg_close": 0, "with_bg_term": 0, "with_half_handshake": 0, "with_dead_connect": 0,
-         "with_blocked_recv": 0, "with_blocked_send": 0}
+         "with_blocked_recv": 0, "with_blocked_send": 0, "with_three_or_more_parked_in_one_call": 0,
+         "with_unlimited_send_wait": 0}
     for c in cases:
         ops = c[0].split(" ")[3].split(";")
         d["ops"] += len(ops)
@@ -73,6 +98,8 @@ def dist(cases):
         d["with_dead_connect"] += any(o.startswith("d") for o in ops)
         d["with_blocked_recv"] += any(o.startswith("R") for o in ops)
         d["with_blocked_send"] += any(o.startswith("S") for o in ops)
+        d["with_unlimited_send_wait"] += any(o.startswith("B") for o in ops)
+        d["with_three_or_more_parked_in_one_call"] += any(ops.count(o) >= 3 for o in ops if o[0] in "SR")
     return d
 
 
@@ -81,7 +108,7 @@ SPEC = {
                     "nontrivial": lambda c, i: any(l == "lifecycle=ok" for l in i), "dist": dist}],
     "search": lambda rng, tier: [("stack", gen(rng, "quick") + gen(rng, "quick"), None, False)],
     "rule": "stack level: random histories of API calls (bind tcp/ipc/inproc, connect, connect to a dead port, a raw peer stuck in the "
-            "handshake, send, background senders blocked at the HWM, background receivers blocked in recv(), set_option, monitor, close() "
+            "handshake, send, background senders blocked at the HWM or for want of a peer, background receivers blocked in recv() (one or several per socket), set_option, monitor, close() "
             "inline / from another task / twice, handle drop, term() inline / from another task) on 2..4 sockets of one context, on "
             "current-thread and multi-thread runtimes, each ending in term(); oracles: close() returns within 15 s and term() within 25 s, "
             "term() never has to wait out a straggler (8 s), nothing panics, every operation on every socket fails within 3 s afterwards, "
